@@ -94,8 +94,9 @@ def run(rep, tier, seed, replay=None):
     if os.path.isdir(corpus_dir):
         for f in sorted(os.listdir(corpus_dir)):
             lines += [l.rstrip("\n") for l in open(os.path.join(corpus_dir, f))]
-    for k in range(n_seg + n_seg_big):
-        c = gen_c10.seg_case(rng, big=(k >= n_seg))
+    n_seg_huge = 1 if tier == "quick" else 4
+    for k in range(n_seg + n_seg_big + n_seg_huge):
+        c = gen_c10.seg_case(rng, big=("huge" if k >= n_seg + n_seg_big else (k >= n_seg)))
         cid = "s%d" % k
         seg_meta[cid] = c
         lines.append(gen_c10.seg_line(cid, c))
@@ -143,7 +144,7 @@ def run(rep, tier, seed, replay=None):
     verdicts = common.run_driver("c10", "\n".join(collect_lines) + "\n", timeout=600).splitlines()
     t_driver = time.time() - t0
     common.log("vd-c10 driver: %.1fs" % t_driver)
-    vstat = {"exact": 0, "cyclic": 0, "mismatch": 0, "skip": 0, "pre1": 0, "pre0": 0, "theorem_instances": 0}
+    vstat = {"exact": 0, "cyclic": 0, "judged_only_huge": 0, "mismatch": 0, "skip": 0, "pre1": 0, "pre0": 0, "theorem_instances": 0}
     mism = []
     for v in verdicts:
         w = v.split()
@@ -151,6 +152,8 @@ def run(rep, tier, seed, replay=None):
             vstat["exact"] += 1
         elif v.startswith("ok cyclic"):
             vstat["cyclic"] += 1
+        elif v.startswith("ok judged-only"):
+            vstat["judged_only_huge"] += 1
         elif v.startswith("skip"):
             vstat["skip"] += 1
         else:
